@@ -17,6 +17,15 @@ Proof.
     exists (a' :: l'). cbn [tmapM]. rewrite Hr, Hrl, Hw', Hwl'. split; reflexivity.
 Qed.
 
+(* on a list whose elements all read, the element loop of Vec<T> is the plain map *)
+Lemma read_elems_tmapM rd l : forall vs, tmapM rd l = TOk vs -> read_elems rd l = TOk vs.
+Proof.
+  induction l as [|p l IH]; intros vs Hm; cbn [tmapM] in Hm; cbn [read_elems]; [exact Hm|].
+  unfold read_elem. destruct (rd p) as [v| | |]; cbn [tbind] in Hm; try discriminate.
+  destruct (tmapM rd l) as [vs'| | |]; cbn [tbind] in Hm; try discriminate. inversion Hm.
+  cbn [tbind]. rewrite (IH vs' eq_refl). reflexivity.
+Qed.
+
 Lemma tmapM_nonempty {A B} (w : A -> tres B) l bs : tmapM w l = TOk bs -> bs <> [] -> l <> [].
 Proof. intros H Hb Hl. subst l. cbn in H. inversion H. subst. apply Hb. reflexivity. Qed.
 
@@ -74,8 +83,6 @@ Fixpoint never_null (t : ty) : bool :=
   | TBox t0 | TMaybeRef t0 => never_null t0
   | _ => false
   end.
-
-Definition is_ref (p : prim) : bool := match p with PRef _ _ => true | _ => false end.
 
 (* well-formed schema (pdf_derive's implicit requirements + what the round trip needs) *)
 Definition schema_wf (s : schema) : bool :=
@@ -201,7 +208,7 @@ Proof.
     destruct v; cbn [write] in Hw; try discriminate. cbn [val_ok] in Hok.
     destruct (tmapM (wr f t) l) as [ps| | |] eqn:Hm; cbn [tmap] in Hw; try discriminate. inversion Hw. subst p.
     destruct (tmapM_rt (wr f t) (rd f chain t) (val_ok f chain t) (fun a b Pa Hb => IH chain t a b Pa Hb) l ps Hok Hm) as [l' [Hr Hw']].
-    exists (VVec l'). cbn [read write]. rewrite Hr, Hw'. split; reflexivity.
+    exists (VVec l'). cbn [read write]. rewrite (read_elems_tmapM _ _ _ Hr), Hw'. split; reflexivity.
   - (* map *)
     destruct v; cbn [write] in Hw; try discriminate. cbn [val_ok] in Hok.
     destruct l as [|kv l].
@@ -279,17 +286,17 @@ Proof.
     destruct v; cbn [write] in Hw; try discriminate; destruct (get_nenum SC i) as [e|] eqn:He; try discriminate.
     + destruct (nth_error (ne_pairs e) (N.to_nat idx)) as [[x nm]|] eqn:Hn; [|discriminate]. inversion Hw. subst p.
       destruct (find_pair_in nm _ 0 _ _ Hn) as [r Hr]. destruct (find_pair_spec _ _ _ _ Hr) as [k [y [Hrk Hy]]].
-      exists (VEnum r). cbn [read write]. rewrite He, Hr. split; [reflexivity|]. subst r. rewrite to_nat_of_nat0, Hy. reflexivity.
+      exists (VEnum r). cbn [read write]. rewrite He. cbn [tbind]. rewrite Hr. split; [reflexivity|]. subst r. rewrite to_nat_of_nat0, Hy. reflexivity.
     + destruct (ne_other e) eqn:Ho; [|discriminate]. inversion Hw. subst p.
       destruct (find_pair s (ne_pairs e) 0) as [r|] eqn:Hr.
       * destruct (find_pair_spec _ _ _ _ Hr) as [k [y [Hrk Hy]]].
-        exists (VEnum r). cbn [read write]. rewrite He, Hr. split; [reflexivity|]. subst r. rewrite to_nat_of_nat0, Hy. reflexivity.
-      * exists (VEnumOther s). cbn [read write]. rewrite He, Hr, Ho. split; reflexivity.
+        exists (VEnum r). cbn [read write]. rewrite He. cbn [tbind]. rewrite Hr. split; [reflexivity|]. subst r. rewrite to_nat_of_nat0, Hy. reflexivity.
+      * exists (VEnumOther s). cbn [read write]. rewrite He. cbn [tbind]. rewrite Hr, Ho. split; reflexivity.
   - (* int enum *)
     destruct v; cbn [write] in Hw; try discriminate; destruct (get_ienum SC i) as [e|] eqn:He; try discriminate.
     destruct (nth_error (ie_variants e) (N.to_nat idx)) as [[x d]|] eqn:Hn; [|discriminate]. inversion Hw. subst p.
     destruct (find_disc_in d _ 0 _ _ Hn) as [r Hr]. destruct (find_disc_spec _ _ _ _ Hr) as [k [y [Hrk Hy]]].
-    exists (VEnum r). cbn [read write]. rewrite He, Hr. split; [reflexivity|]. subst r. rewrite to_nat_of_nat0, Hy. reflexivity.
+    exists (VEnum r). cbn [read write]. rewrite He. cbn [tbind]. rewrite Hr. split; [reflexivity|]. subst r. rewrite to_nat_of_nat0, Hy. reflexivity.
   - (* hand-written *)
     assert (Hw0 : h_write H i v = TOk p) by (destruct v; exact Hw).
     assert (Hok0 : hand_ok i v) by (destruct v; exact Hok).
